@@ -3,6 +3,7 @@ package props
 import (
 	"encoding/json"
 	"fmt"
+	"os"
 	"strings"
 	"testing"
 	"time"
@@ -11,6 +12,14 @@ import (
 )
 
 var epoch = time.Date(2000, 1, 1, 0, 0, 0, 0, time.UTC)
+
+// tierScale widens generator bounds in the thorough tier.
+func tierScale(n int) int {
+	if os.Getenv("VERIF_TIER") == "thorough" {
+		return n * 2
+	}
+	return n
+}
 
 func genSched(rt *rapid.T, max int) []uint16 {
 	return rapid.SliceOfN(rapid.Uint16(), 0, max).Draw(rt, "sched")
